@@ -164,3 +164,87 @@ func knownNilDerefs(f *ssa.Function) []nilDeref {
 	})
 	return out
 }
+
+// ---------------------------------------------------------------------------------------------
+// lost update through a copy: a method with a VALUE receiver that assigns to a field of that receiver only changes its
+// private copy (go vet does not report this when the struct holds its mutex by pointer).
+
+type lostUpdate struct {
+	Instr ssa.Instruction
+	Field string
+}
+
+func lostUpdatesThroughValueReceiver(f *ssa.Function) []lostUpdate {
+	var out []lostUpdate
+	if f.Signature.Recv() == nil || len(f.Params) == 0 || f.Blocks == nil {
+		return nil
+	}
+	if _, isPtr := f.Signature.Recv().Type().Underlying().(*types.Pointer); isPtr {
+		return nil
+	}
+	if _, isStruct := f.Signature.Recv().Type().Underlying().(*types.Struct); !isStruct {
+		return nil
+	}
+	recv := f.Params[0]
+	// the local slot holding the receiver copy
+	var slots []*ssa.Alloc
+	if recv.Referrers() != nil {
+		for _, r := range *recv.Referrers() {
+			if st, ok := r.(*ssa.Store); ok && st.Val == ssa.Value(recv) {
+				if a, isA := st.Addr.(*ssa.Alloc); isA {
+					slots = append(slots, a)
+				}
+			}
+		}
+	}
+	for _, g := range withAnon(f) {
+		allInstrs(g, func(i ssa.Instruction) {
+			st, ok := i.(*ssa.Store)
+			if !ok {
+				return
+			}
+			fa, isF := st.Addr.(*ssa.FieldAddr)
+			if !isF {
+				return
+			}
+			for _, a := range slots {
+				if fa.X == ssa.Value(a) {
+					out = append(out, lostUpdate{i, fieldName(fa.X.Type(), fa.Field)})
+				}
+			}
+		})
+	}
+	return out
+}
+
+// lostUpdateRule builds `<id>.no-lost-update-through-copy` over the packages with the given prefixes.
+func lostUpdateRule(id string, prefixes ...string) func(*Ctx) {
+	return func(c *Ctx) {
+		u := c.U1
+		c.rule(id+".no-lost-update-through-copy", "no method with a value (non-pointer) struct receiver assigns to a field of its receiver: the assignment changes a private copy and is lost (a counter or flag that other methods rely on never changes)", 1)
+		n, bad := 0, 0
+		for _, f := range u.RepoFuncs {
+			if f.Pkg == nil || f.Parent() != nil {
+				continue
+			}
+			in := false
+			for _, p := range prefixes {
+				if strings.HasPrefix(f.Pkg.Pkg.Path(), p) {
+					in = true
+				}
+			}
+			if !in {
+				continue
+			}
+			n++
+			for _, lu := range lostUpdatesThroughValueReceiver(f) {
+				bad++
+				c.bad(trimPkgDirs(shortName(f))+"/"+lu.Field+"=", u.ipos(lu.Instr), "field "+lu.Field+" is assigned through a value receiver: the update is made on a copy of the object and never reaches the shared one")
+			}
+		}
+		if bad == 0 {
+			c.ok("methods", "", "no receiver-field assignment through a value receiver")
+		}
+		c.note("%s.no-lost-update-through-copy: %d methods/functions scanned", id, n)
+	}
+}
